@@ -519,6 +519,33 @@ def run(sc: Dict[str, Any], cache: Optional[Dict[str, Any]] = None) -> Dict[str,
         that already is in eval mode is not switched: an eval()/train() call - also the one inside export() - may reset
         inference-time state) and again afterwards; the exported module must reproduce both."""
         nonlocal exported, err
+        # what summary() reports and what the raw coefficients select AT THIS MOMENT, read before anything is forwarded
+        try:
+            s0 = m.summary()
+        except Exception:
+            s0 = {}
+        trip = []
+        for n_ in sorted(recs):
+            r_ = recs[n_]
+            lay_ = r_["layer"]
+            il_ = r_["kind"] in ("conv", "lin")
+            co_ = sh[n_]["ch"]
+            d_ = {"n": n_, "su_i": NA, "su_w": [], "su_o": NA, "am_i": NA, "am_w": [], "am_o": _argmax_bits(lay_.out_mps_quantizer)[0],
+                  "ex_i": NA, "ex_w": [], "ex_o": NA}
+            if il_:
+                d_["am_i"] = _argmax_bits(lay_.in_mps_quantizer)[0]
+                aw_ = _argmax_bits(lay_.w_mps_quantizer)
+                d_["am_w"] = aw_ * co_ if lay_.w_mps_quantizer.alpha.dim() == 1 else aw_
+            e_ = s0.get(r_["name"])
+            if e_ is not None:
+                try:
+                    d_["su_o"] = int(e_["out_precision"])
+                    if il_:
+                        d_["su_i"] = int(e_["in_precision"])
+                        d_["su_w"] = _as_list(e_["w_precision"], co_)
+                except (KeyError, TypeError, ValueError):
+                    pass
+            trip.append(d_)
         was_training = m.training
         if was_training:
             m.eval()
@@ -531,7 +558,7 @@ def run(sc: Dict[str, Any], cache: Optional[Dict[str, Any]] = None) -> Dict[str,
         except Exception as e:          # export must not fail on a supported network: reported by the trace spec
             exported = None
             err = f"{type(e).__name__}: {e}"[:200]
-            exports.append({"ok": False, "bit": False, "diff": 0, "wcur": False, "wver": wver})
+            exports.append({"ok": False, "bit": False, "diff": 0, "wcur": False, "wver": wver, "T": trip})
             if was_training:
                 m.train()
             return
@@ -558,7 +585,17 @@ def run(sc: Dict[str, Any], cache: Optional[Dict[str, Any]] = None) -> Dict[str,
                         or ((e_.bias is None) != (r_["layer"].bias is None)) \
                         or (e_.bias is not None and not torch.equal(e_.bias, r_["layer"].bias)):
                     wcur = False
-        exports.append({"ok": True, "bit": bool(bit), "diff": int(min(diff * 1e6, 2e9)), "wcur": bool(wcur), "wver": wver})
+        for d_ in trip:                     # the precisions of the quantiser objects of the exported layers
+            e_ = exm.get(recs[d_["n"]]["name"])
+            try:
+                if hasattr(e_, "in_quantizer"):
+                    d_["ex_i"] = int(e_.in_quantizer.precision)
+                    d_["ex_w"] = [int(e_.w_quantizer.precision)] * sh[d_["n"]]["ch"]
+                if hasattr(e_, "out_quantizer"):
+                    d_["ex_o"] = int(e_.out_quantizer.precision)
+            except (AttributeError, TypeError, ValueError):
+                pass
+        exports.append({"ok": True, "bit": bool(bit), "diff": int(min(diff * 1e6, 2e9)), "wcur": bool(wcur), "wver": wver, "T": trip})
 
     def sgd(all_params: bool):
         """One SGD step in hard-sampling training mode (autograd on): on the network weights only / on all parameters."""
@@ -1321,7 +1358,12 @@ def run_check(pid: str, tier: str, seed: int, replay: Optional[str], plan: Dict[
                   ["export!", "sgd_net", "export!"], ["export!", "sgd_net", "sgd_net", "export!", "sgd_all", "export!"],
                   ["to_hard", "fwd_g", "copy", "to_eval", "fwd_n", "data", "export!", "sgd_net", "to_eval", "fwd_n", "export!"],
                   ["fwd_n", "fork", "copy", "export!"], ["fork", "load", "fwd_n", "export!", "sgd_net", "export!"],
-                  ["fwd_n", "loadT", "fork", "data", "fwd_n", "export!"]]
+                  ["fwd_n", "loadT", "fork", "data", "fwd_n", "export!"],
+                  # a write of every kind, then summary() and export() WITHOUT a forward pass in between
+                  ["fwd_n", "load", "summary", "export!"], ["fwd_n", "copy", "export!"], ["fwd_n", "data", "export!"],
+                  ["to_hard", "fwd_n", "sgd_all", "export!"], ["copy", "export!"],
+                  # training mode with hard Gumbel sampling: summary() right after a training forward pass
+                  ["to_ghard", "fwd_n", "export!"], ["to_ghard", "fwd_n", "copy", "export!", "fwd_n", "export!"]]
     else:
         pinned = [["fwd_n", "copy", "fwd_n"], ["fwd_n", "load", "fwd_n"], ["fwd_n", "data", "fwd_n"], ["fwd_g", "copy", "fwd_g"],
                   ["to_hard", "fwd_n", "copy", "fwd_n"], ["to_hard", "fwd_g", "data", "to_eval", "fwd_n", "load", "fwd_n"],
@@ -1335,9 +1377,23 @@ def run_check(pid: str, tier: str, seed: int, replay: Optional[str], plan: Dict[
         arch = random_mps_arch(prng, 6, dim, False)
         while pc and not pc_ok(arch):
             arch = random_mps_arch(prng, 6, dim, False)
-        if k == 0:          # depthwise conv fed by the network input (its input features come from a constant calculator)
+        if k == 0:          # depthwise conv fed by the network input (its input features come from a constant calculator); Linear
             arch = norm_arch({"dim": 2, "c0": 3, "sp": 4, "nodes": [{"op": "conv", "ins": [0], "dw": True, "k": 3}, {"op": "conv", "ins": [1], "out": 2, "k": 1},
-                                                                  {"op": "flat", "ins": [2]}, {"op": "lin", "ins": [3], "out": 2}]})
+                                                                  {"op": "flat", "ins": [2]}, {"op": "lin", "ins": [3], "out": 3},
+                                                                  {"op": "relu", "ins": [4]}, {"op": "lin", "ins": [5], "out": 2}]})
+        elif k == 1 and not pc:    # conv-only 2-D network with a residual add (MPSConv2d, MPSAdd, input quantiser)
+            arch = norm_arch({"dim": 2, "c0": 2, "sp": 4, "nodes": [{"op": "conv", "ins": [0], "out": 3, "k": 3}, {"op": "conv", "ins": [1], "out": 3, "k": 3},
+                                                                  {"op": "add", "ins": [1, 2]}, {"op": "conv", "ins": [3], "out": 2, "k": 1},
+                                                                  {"op": "conv", "ins": [4], "out": 2, "k": 3}]})
+        elif k == 2:        # 1-D network: MPSConv1d (plain and depthwise) and two MPSLinear
+            arch = norm_arch({"dim": 1, "c0": 2, "sp": 8, "nodes": [{"op": "conv", "ins": [0], "out": 3, "k": 3, "causal": True},
+                                                                  {"op": "conv", "ins": [1], "dw": True, "k": 3, "causal": True},
+                                                                  {"op": "conv", "ins": [2], "out": 2, "k": 2, "causal": True}, {"op": "flat", "ins": [3]},
+                                                                  {"op": "lin", "ins": [4], "out": 3}, {"op": "lin", "ins": [5], "out": 2}]})
+        elif k == 3 and not pc:    # conv-only 1-D network
+            arch = norm_arch({"dim": 1, "c0": 2, "sp": 8, "nodes": [{"op": "conv", "ins": [0], "out": 3, "k": 3, "causal": True},
+                                                                  {"op": "conv", "ins": [1], "out": 3, "k": 3, "causal": True},
+                                                                  {"op": "add", "ins": [2, 1]}, {"op": "conv", "ins": [3], "out": 2, "k": 1, "causal": True}]})
         cfg_ = {"pin": [2, 4, 8], "pa": [8, 2, 4], "pw": [0, 4, 8] if pc else [4, 8, 2], "wt": "pc" if pc else "pl"}
         build_no += 1
         opts = _options(pid, cfg_, prng, dim=dim)
